@@ -2,6 +2,7 @@ import BoboVerif.Props.C04
 import BoboVerif.Model.Engine
 import BoboVerif.Lemmas.GenDecider
 import BoboVerif.Lemmas.IdInv
+import BoboVerif.Lemmas.MixedRun
 /-!
 C05 — A finished run stays finished: at most one complex event per run and instance.
 
@@ -337,4 +338,342 @@ theorem finished_ids_nodup (c : Cfg ε) (hc : c.caching = true) (hcw : CfgWF c) 
     (inj : ∀ i j, f i = f j → i = j) (a : DState ε) (nts : List (Notif ε)) (h : LocalRun c f a nts) :
     (finishedIds nts).Nodup := (finished_announced_once c hc hcw f inj a nts h).once
 
+end Bobo.Decider
+
+/-! ### over a whole MIXED execution: local `update()` steps and ARBITRARY remote messages interleaved
+
+`MixedRun c g s nts`: ONE decider, started empty, whose own identifiers come from `g`, takes steps that are either its
+own `update()` on an event (notification recorded with `true`) or `on_distributed_update` on an arbitrary message
+(recorded with `false`); `s` is the state reached, `nts` the notifications in order.  Hypotheses carried by the steps
+(`MixedStep`, Lemmas/MixedRun.lean): the memory has room at every step; a remote message does not name an identifier
+the local generator has yet to issue (`hfresh`) and respects the keys of the runs it names (`hkey : KeyOK`).
+Hypotheses of the theorems: memory on, no singleton patterns (`NoSing`), `CfgWF`, `g` never repeats.
+
+Results: a finished run stays finished (`mixed_finished_stays_finished`), is never reported updated again
+(`mixed_no_update_after_finish`), is reported COMPLETED at most once and HALTED at most once, and never again after
+it was reported completed (`mixed_finished_once_partial`).  The full "reported finished at most once" is FALSE on the
+model (counter-runs below: halted first, completed later by a peer) and holds exactly under `NoHaltThenComplete`
+(`mixed_finished_once`). -/
+namespace Bobo.Decider
+open Bobo.Run Bobo.Lattice
+variable {ε : Type}
+
+/-- mixed executions from the empty decider (no side condition on the messages beyond freshness and keys). -/
+def MixedRun (c : Cfg ε) (g : Nat → String) : DState ε → List (Notif ε × Bool) → Prop := MixedFrom anyMsg c g {}
+
+/-- mixed executions in which no message names as completed a run the receiver remembers as halted (or that the same
+message names as halted). -/
+def MixedRunStrict (c : Cfg ε) (g : Nat → String) : DState ε → List (Notif ε × Bool) → Prop :=
+  MixedFrom NoHaltThenComplete c g {}
+
+/-- the later states of an execution that has reached `s0`: `MixedLater c g s0 s ext` — `s` is reached from `s0`,
+`ext` are the notifications in between. -/
+def MixedLater (c : Cfg ε) (g : Nat → String) : DState ε → DState ε → List (Notif ε × Bool) → Prop := MixedFrom anyMsg c g
+
+theorem MixedRun.init (c : Cfg ε) (g : Nat → String) : MixedRun c g {} [] := .refl
+
+theorem MixedRun.loc {c : Cfg ε} {g : Nat → String} {s s' : DState ε} {nts : List (Notif ε × Bool)} {e : ε}
+    {nt : Notif ε} {ch : Bool} (h : MixedRun c g s nts)
+    (hstep : localStep (withIds c g) s e = some (s', nt, ch))
+    (hevC : s.cacheC.length + nt.completed.length ≤ c.maxCache)
+    (hevH : s.cacheH.length + nt.halted.length ≤ c.maxCache) : MixedRun c g s' (nts ++ [(nt, true)]) :=
+  .step h (.loc hstep hevC hevH)
+
+theorem MixedRun.rem {c : Cfg ε} {g : Nat → String} {s s' : DState ε} {nts : List (Notif ε × Bool)}
+    {comp halt upd : List (Rec ε)} {nt : Notif ε} (h : MixedRun c g s nts)
+    (hstep : remoteStep (withIds c g) s comp halt upd = some (s', nt))
+    (hevC : s.cacheC.length + comp.length ≤ c.maxCache)
+    (hevH : s.cacheH.length + halt.length ≤ c.maxCache)
+    (hfresh : ∀ k, s.nextId ≤ k → g k ∉ msgIds comp halt upd)
+    (hkey : KeyOK s comp halt upd) : MixedRun c g s' (nts ++ [(nt, false)]) :=
+  .step h (.rem hstep hevC hevH hfresh hkey trivial)
+
+theorem MixedRunStrict.toMixedRun {c : Cfg ε} {g : Nat → String} {s : DState ε} {nts : List (Notif ε × Bool)}
+    (h : MixedRunStrict c g s nts) : MixedRun c g s nts := MixedFrom.weaken (fun _ _ _ _ _ => trivial) h
+
+/-- the invariant of mixed executions (Lemmas/MixedRun.lean) holds in every reachable state. -/
+theorem mixed_run_inv (c : Cfg ε) (hc : c.caching = true) (hns : NoSing c) (hcw : CfgWF c) (g : Nat → String)
+    (inj : ∀ i j, g i = g j → i = j) (s : DState ε) (nts : List (Notif ε × Bool)) (h : MixedRun c g s nts) :
+    MixedInv c g s nts := by
+  simpa using mixedInv_from anyMsg c hc hns hcw g inj {} s [] nts (mixedInv_init c g) h
+
+/- FALSE as stated (counter-runs `mixed_counter_*` below):
+
+theorem mixed_finished_once (c : Cfg ε) (hc : c.caching = true) (hns : NoSing c) (hcw : CfgWF c) (g : Nat → String)
+    (inj : ∀ i j, g i = g j → i = j) (s : DState ε) (nts : List (Notif ε × Bool)) (h : MixedRun c g s nts) :
+    (mxFinished nts).Nodup        -- i.e. ∀ x, (mxFinished nts).count x ≤ 1
+
+`on_distributed_update` filters the message's `completed` list against the memory of COMPLETED runs only, so a run
+this instance has reported halted (by itself or from a peer) is reported completed when a later message names it as
+completed; and one message naming a run both as completed and as halted is reported in both lists. -/
+
+/-- **reported completed at most once, reported halted at most once, and never reported finished again after it was
+reported completed** — over every mixed execution, for every identifier, whoever finished the run.  Consequently an
+identifier is reported finished at most twice, and twice only as "halted, then (later or in the same remote
+notification) completed". -/
+theorem mixed_finished_once_partial (c : Cfg ε) (hc : c.caching = true) (hns : NoSing c) (hcw : CfgWF c)
+    (g : Nat → String) (inj : ∀ i j, g i = g j → i = j) (s : DState ε) (nts : List (Notif ε × Bool))
+    (h : MixedRun c g s nts) :
+    (mxCompleted nts).Nodup ∧ (mxHalted nts).Nodup ∧
+    (∀ pre post, nts = pre ++ post → ∀ x ∈ mxCompleted pre, x ∉ mxFinished post) ∧
+    (∀ x, (mxFinished nts).count x ≤ 2) := by
+  have hinv := mixed_run_inv c hc hns hcw g inj s nts h
+  refine ⟨hinv.onceC, hinv.onceH, ?_, ?_⟩
+  · intro pre post e x hx hfin
+    obtain ⟨m, hm1, hm2⟩ := MixedFrom.split h pre post e
+    have hinvm := mixed_run_inv c hc hns hcw g inj m pre hm1
+    obtain ⟨_, a2, a3, _⟩ := (mixed_after anyMsg c hc hns hcw g inj m s pre post hinvm hm2 x).1 (hinvm.remC x hx)
+    rcases (mem_mxFinished post x).mp hfin with h1 | h1
+    · exact a2 h1
+    · exact a3 h1
+  · intro x
+    rw [count_mxFinished]
+    have h1 := List.nodup_iff_count.mp hinv.onceC x
+    have h2 := List.nodup_iff_count.mp hinv.onceH x
+    omega
+
+/-- **the full statement, under `NoHaltThenComplete`**: over every mixed execution in which no message names as
+completed a run the receiver remembers as halted (or that the same message names as halted), every identifier is
+reported finished — completed or halted, locally or remotely — AT MOST ONCE in the instance's life; in particular the
+`completed ++ halted` identifiers of every single notification are duplicate-free. -/
+theorem mixed_finished_once (c : Cfg ε) (hc : c.caching = true) (hns : NoSing c) (hcw : CfgWF c)
+    (g : Nat → String) (inj : ∀ i j, g i = g j → i = j) (s : DState ε) (nts : List (Notif ε × Bool))
+    (h : MixedRunStrict c g s nts) :
+    (mxFinished nts).Nodup ∧ (∀ x, (mxFinished nts).count x ≤ 1) ∧
+    ∀ y ∈ nts, ((y.1.completed ++ y.1.halted).map (·.id)).Nodup := by
+  have hnd := mixed_strict_nodup c hc hns hcw g inj s nts h
+  refine ⟨hnd, List.nodup_iff_count.mp hnd, ?_⟩
+  intro y hy
+  obtain ⟨pre, post, e⟩ := List.append_of_mem hy
+  rw [e, mxFinished_append, List.nodup_append] at hnd
+  have := hnd.2.1
+  simp only [mxFinished, List.flatMap_cons, List.nodup_append] at this
+  exact this.1
+
+/-- **a finished run stays finished**: once a notification (local or remote) has reported `x` completed or halted,
+in every later state of the execution no key of the table holds a run with identifier `x`, and `x` is in the
+finished-run memory. -/
+theorem mixed_finished_stays_finished (c : Cfg ε) (hc : c.caching = true) (hns : NoSing c) (hcw : CfgWF c)
+    (g : Nat → String) (inj : ∀ i j, g i = g j → i = j) (s0 : DState ε) (nts0 : List (Notif ε × Bool))
+    (h0 : MixedRun c g s0 nts0) (x : String) (hx : x ∈ mxFinished nts0)
+    (s : DState ε) (ext : List (Notif ε × Bool)) (hl : MixedLater c g s0 s ext) :
+    (∀ ph pa, s.table.runAt ph pa x = none) ∧ x ∈ (s.cacheC ++ s.cacheH).map (·.id) := by
+  have hinv := mixedInv_from anyMsg c hc hns hcw g inj s0 s nts0 ext (mixed_run_inv c hc hns hcw g inj s0 nts0 h0) hl
+  have hx' : x ∈ mxFinished (nts0 ++ ext) := by rw [mxFinished_append]; exact List.mem_append.mpr (.inl hx)
+  have hrem : inCache s.cacheC x = true ∨ inCache s.cacheH x = true := by
+    rcases (mem_mxFinished _ x).mp hx' with h1 | h1
+    · exact .inl (hinv.remC x h1)
+    · exact .inr (hinv.remH x h1)
+  constructor
+  · intro ph pa
+    cases hr : s.table.runAt ph pa x with
+    | none => rfl
+    | some r =>
+      obtain ⟨f1, f2⟩ := hinv.ids.fresh ph pa x r hr
+      rcases hrem with h1 | h1
+      · rw [f1] at h1; exact absurd h1 (by decide)
+      · rw [f2] at h1; exact absurd h1 (by decide)
+  · rw [List.map_append, List.mem_append]
+    rcases hrem with h1 | h1
+    · obtain ⟨r, hr, e⟩ := (inCache_true_iff _ _).mp h1
+      exact .inl (List.mem_map.mpr ⟨r, hr, e⟩)
+    · obtain ⟨r, hr, e⟩ := (inCache_true_iff _ _).mp h1
+      exact .inr (List.mem_map.mpr ⟨r, hr, e⟩)
+
+/-- **no update after the finish**: once `x` has been reported finished, no later notification's `updated` list
+contains a record with identifier `x` — and the notification that reports it finished does not report it updated. -/
+theorem mixed_no_update_after_finish (c : Cfg ε) (hc : c.caching = true) (hns : NoSing c) (hcw : CfgWF c)
+    (g : Nat → String) (inj : ∀ i j, g i = g j → i = j) (s0 : DState ε) (nts0 : List (Notif ε × Bool))
+    (h0 : MixedRun c g s0 nts0) (x : String) (hx : x ∈ mxFinished nts0)
+    (s : DState ε) (ext : List (Notif ε × Bool)) (hl : MixedLater c g s0 s ext) :
+    x ∉ mxUpdated ext ∧
+    ∀ y ∈ nts0, x ∈ (y.1.completed ++ y.1.halted).map (·.id) → x ∉ y.1.updated.map (·.id) := by
+  have hinv0 := mixed_run_inv c hc hns hcw g inj s0 nts0 h0
+  have haft := mixed_after anyMsg c hc hns hcw g inj s0 s nts0 ext hinv0 hl x
+  constructor
+  · rcases (mem_mxFinished _ x).mp hx with h1 | h1
+    · exact (haft.1 (hinv0.remC x h1)).2.2.2
+    · exact (haft.2 (hinv0.remH x h1)).2.2
+  · intro y hy hfin hupd
+    obtain ⟨f, hf, e1⟩ := List.mem_map.mp hfin
+    obtain ⟨u, hu, e2⟩ := List.mem_map.mp hupd
+    exact hinv0.sep y hy u hu f hf (by rw [e1, e2])
+
+/-- the same in one list: whatever is reported finished in a prefix of the notifications is not reported updated in
+the rest. -/
+theorem mixed_no_update_after_finish_list (c : Cfg ε) (hc : c.caching = true) (hns : NoSing c) (hcw : CfgWF c)
+    (g : Nat → String) (inj : ∀ i j, g i = g j → i = j) (s : DState ε) (nts : List (Notif ε × Bool))
+    (h : MixedRun c g s nts) (pre post : List (Notif ε × Bool)) (e : nts = pre ++ post) :
+    ∀ x ∈ mxFinished pre, x ∉ mxUpdated post := by
+  intro x hx
+  obtain ⟨m, hm1, hm2⟩ := MixedFrom.split h pre post e
+  exact (mixed_no_update_after_finish c hc hns hcw g inj m pre hm1 x hx s post hm2).1
+
+end Bobo.Decider
+
+/-! ### non-vacuity and counter-runs (checked by `decide` on the executable runner `mixedExec`) -/
+namespace Bobo.Decider
+open Bobo.Run
+
+section mixed_example
+def mxBlk (k : Nat) (grp : String) : Block Nat :=
+  { preds := [fun e _ => some (e == k)], group := grp, strict := false, loop := false, negated := false, optional := false }
+/-- two blocks (event 0, then event 1); event 7 halts a run. -/
+def mxP : Pattern Nat :=
+  { name := "p", singleton := false, pre := [], halt := [fun e _ => some (e == 7)], blocks := [mxBlk 0 "a", mxBlk 1 "b"] }
+/-- two blocks (event 5, then event 1). -/
+def mxQ : Pattern Nat :=
+  { name := "q", singleton := false, pre := [], halt := [], blocks := [mxBlk 5 "a", mxBlk 1 "b"] }
+def mxCfg : Cfg Nat :=
+  { phenomena := [{ name := "ph", patterns := [mxP, mxQ] }], maxCache := 10, idOf := fun _ => "" }
+/-- the local generator: "a", "aa", "aaa", … -/
+def mxG (k : Nat) : String := String.ofList (List.replicate (k + 1) 'a')
+/-- "`id` is none of `mxG n`, `mxG (n+1)`, …" -/
+def mxFr (n : Nat) (id : String) : Bool := !(id.toList.all (· == 'a') && decide (n + 1 ≤ id.length))
+
+theorem mxG_inj : ∀ i j, mxG i = mxG j → i = j := by
+  intro i j h
+  have := congrArg String.toList h
+  simp only [mxG, String.toList_ofList] at this
+  have := congrArg List.length this
+  simpa using this
+
+theorem mxFr_sound : ∀ n id, mxFr n id = true → ∀ k, n ≤ k → mxG k ≠ id := by
+  intro n id h k hk e
+  subst e
+  simp [mxFr, mxG, String.toList_ofList, String.length_ofList] at h
+  omega
+
+theorem mxNoSing : NoSing mxCfg := by
+  intro ph pa p hg
+  unfold Cfg.getPattern at hg
+  cases hf : mxCfg.phenomena.find? (·.name == ph) with
+  | none => simp [hf] at hg
+  | some P =>
+    simp only [hf] at hg
+    have hP := List.mem_of_find?_eq_some hf
+    have hp := List.mem_of_find?_eq_some hg
+    simp only [mxCfg, List.mem_singleton] at hP
+    subst hP
+    simp only [List.mem_cons, List.not_mem_nil, or_false] at hp
+    rcases hp with e | e <;> subst e <;> rfl
+
+theorem mxCfgWF : CfgWF mxCfg := by
+  intro P hP p hp
+  simp only [mxCfg, List.mem_singleton] at hP
+  subst hP
+  simp only [List.mem_cons, List.not_mem_nil, or_false] at hp
+  rcases hp with e | e <;> subst e <;> rfl
+
+/-- what a notification says, by identifier: (completed, halted, updated, local?). -/
+def mxView (x : Notif Nat × Bool) : List String × List String × List String × Bool :=
+  (x.1.completed.map (·.id), x.1.halted.map (·.id), x.1.updated.map (·.id), x.2)
+
+def mxRec (id pa : String) (idx : Nat) : Rec Nat := { id := id, phen := "ph", pat := pa, idx := idx, hist := [("a", [0])] }
+
+/-- local start and local completion of run "a"; then a merged, stale message naming "a" as completed AND updated;
+then a peer's run "b" arrives as an update and is finished by a later message. -/
+def mxSteps : List (MStep Nat) :=
+  [.loc 0, .loc 1, .rem [mxRec "a" "p" 2] [] [mxRec "a" "p" 1], .rem [] [] [mxRec "b" "p" 1], .rem [mxRec "b" "p" 2] [] []]
+
+theorem mxSound (strict : Bool) (R : MsgCond Nat) (hR : ∀ s a b u, (!strict || noHCb s a b) = true → R s a b u)
+    (steps : List (MStep Nat)) (s : DState Nat) (nts : List (Notif Nat × Bool))
+    (h : mixedExec mxCfg mxG mxFr strict true {} [] steps = some (s, nts)) : MixedFrom R mxCfg mxG {} s nts := by
+  obtain ⟨ext, e1, hrun⟩ := mixedExec_sound R mxCfg (by decide) mxNoSing mxCfgWF mxG mxG_inj mxFr mxFr_sound strict hR
+    steps {} s [] nts (mixedInv_init _ _) h
+  rw [List.nil_append] at e1
+  rw [e1]; exact hrun
+
+/-- **non-vacuity**: run "a" is started and completed locally; a merged, stale message then names "a" as completed AND
+as updated — nothing is reported and nothing is stored; a peer's run "b" arrives as an update and is finished by a
+later message.  All hypotheses hold (the run is even a `MixedRunStrict`), the notifications are as the theorems say:
+"a" and "b" are reported finished once each, stay finished, and are not reported updated afterwards. -/
+example : ∃ s nts, MixedRunStrict mxCfg mxG s nts ∧ MixedRun mxCfg mxG s nts ∧
+    nts.map mxView =
+      [([], [], ["a"], true), (["a"], [], [], true), ([], [], [], false), ([], [], ["b"], false), (["b"], [], [], false)] ∧
+    mxFinished nts = ["a", "b"] ∧ (mxFinished nts).Nodup ∧
+    (∀ x ∈ ["a", "b"], (∀ ph pa, s.table.runAt ph pa x = none) ∧ x ∈ (s.cacheC ++ s.cacheH).map (·.id)) ∧
+    (∀ pre post, nts = pre ++ post → ∀ x ∈ mxFinished pre, x ∉ mxUpdated post) := by
+  have hsome : (mixedExec mxCfg mxG mxFr true true {} [] mxSteps).isSome = true := by decide
+  obtain ⟨⟨s, nts⟩, hex⟩ := Option.isSome_iff_exists.mp hsome
+  have hview : (mixedExec mxCfg mxG mxFr true true {} [] mxSteps).map (fun r => r.2.map mxView) =
+      some [([], [], ["a"], true), (["a"], [], [], true), ([], [], [], false), ([], [], ["b"], false),
+        (["b"], [], [], false)] := by decide
+  have hfin : (mixedExec mxCfg mxG mxFr true true {} [] mxSteps).map (fun r => mxFinished r.2) = some ["a", "b"] := by
+    decide
+  rw [hex] at hview hfin
+  simp only [Option.map_some, Option.some.injEq] at hview hfin
+  have hS : MixedRunStrict mxCfg mxG s nts :=
+    mxSound true NoHaltThenComplete (fun s a b u h => noHC_of_noHCb s a b u (by simpa using h)) mxSteps s nts hex
+  have hM : MixedRun mxCfg mxG s nts := hS.toMixedRun
+  refine ⟨s, nts, hS, hM, hview, hfin, (mixed_finished_once mxCfg (by decide) mxNoSing mxCfgWF mxG mxG_inj s nts hS).1, ?_, ?_⟩
+  · intro x hx
+    exact mixed_finished_stays_finished mxCfg (by decide) mxNoSing mxCfgWF mxG mxG_inj s nts hM x (by rw [hfin]; exact hx)
+      s [] .refl
+  · exact mixed_no_update_after_finish_list mxCfg (by decide) mxNoSing mxCfgWF mxG mxG_inj s nts hM
+
+/-- **counter-run 1 to the full `mixed_finished_once`** (a legitimate `MixedRun`: room, freshness and keys hold):
+run "a" is started locally (event 0) and HALTED locally (event 7, the pattern's halt condition) — reported halted;
+then a peer's message names "a" as COMPLETED: it passes the filter (which looks at the memory of completed runs only)
+and "a" is reported completed — a second "finished" report for the same run.  `NoHaltThenComplete` is exactly what
+fails: the same steps are rejected by the strict runner. -/
+theorem mixed_counter_halt_then_complete : ∃ s nts, MixedRun mxCfg mxG s nts ∧
+    nts.map mxView = [([], [], ["a"], true), ([], ["a"], [], true), (["a"], [], [], false)] ∧
+    mxFinished nts = ["a", "a"] ∧ ¬ (mxFinished nts).Nodup ∧
+    mixedExec mxCfg mxG mxFr true true {} [] [.loc 0, .loc 7, .rem [mxRec "a" "p" 2] [] []] = none := by
+  have hsome : (mixedExec mxCfg mxG mxFr false true {} [] [.loc 0, .loc 7, .rem [mxRec "a" "p" 2] [] []]).isSome = true := by
+    decide
+  obtain ⟨⟨s, nts⟩, hex⟩ := Option.isSome_iff_exists.mp hsome
+  have h1 : (mixedExec mxCfg mxG mxFr false true {} [] [.loc 0, .loc 7, .rem [mxRec "a" "p" 2] [] []]).map
+      (fun r => r.2.map mxView) = some [([], [], ["a"], true), ([], ["a"], [], true), (["a"], [], [], false)] := by
+    decide
+  have h2 : (mixedExec mxCfg mxG mxFr false true {} [] [.loc 0, .loc 7, .rem [mxRec "a" "p" 2] [] []]).map
+      (fun r => mxFinished r.2) = some ["a", "a"] := by decide
+  rw [hex] at h1 h2
+  simp only [Option.map_some, Option.some.injEq] at h1 h2
+  refine ⟨s, nts, mxSound false anyMsg (fun _ _ _ _ _ => trivial) _ s nts hex, h1, h2, ?_, by decide⟩
+  rw [h2]; decide
+
+/-- **counter-run 2**: ONE message naming run "b" both as completed and as halted is reported in both lists of one
+notification; and a message naming "b" as halted followed by a message naming it as completed gives two reports. -/
+theorem mixed_counter_remote_halt_complete :
+    (∃ s nts, MixedRun mxCfg mxG s nts ∧ nts.map mxView = [(["b"], ["b"], [], false)]) ∧
+    (∃ s nts, MixedRun mxCfg mxG s nts ∧ nts.map mxView = [([], ["b"], [], false), (["b"], [], [], false)]) := by
+  constructor
+  · have hsome : (mixedExec mxCfg mxG mxFr false true {} [] [.rem [mxRec "b" "p" 2] [mxRec "b" "p" 1] []]).isSome = true := by
+      decide
+    obtain ⟨⟨s, nts⟩, hex⟩ := Option.isSome_iff_exists.mp hsome
+    have hview : (mixedExec mxCfg mxG mxFr false true {} [] [.rem [mxRec "b" "p" 2] [mxRec "b" "p" 1] []]).map
+        (fun r => r.2.map mxView) = some [(["b"], ["b"], [], false)] := by decide
+    rw [hex] at hview
+    simp only [Option.map_some, Option.some.injEq] at hview
+    exact ⟨s, nts, mxSound false anyMsg (fun _ _ _ _ _ => trivial) _ s nts hex, hview⟩
+  · have hsome : (mixedExec mxCfg mxG mxFr false true {} []
+        [.rem [] [mxRec "b" "p" 1] [], .rem [mxRec "b" "p" 2] [] []]).isSome = true := by decide
+    obtain ⟨⟨s, nts⟩, hex⟩ := Option.isSome_iff_exists.mp hsome
+    have hview : (mixedExec mxCfg mxG mxFr false true {} []
+        [.rem [] [mxRec "b" "p" 1] [], .rem [mxRec "b" "p" 2] [] []]).map
+        (fun r => r.2.map mxView) = some [([], ["b"], [], false), (["b"], [], [], false)] := by decide
+    rw [hex] at hview
+    simp only [Option.map_some, Option.some.injEq] at hview
+    exact ⟨s, nts, mxSound false anyMsg (fun _ _ _ _ _ => trivial) _ s nts hex, hview⟩
+
+/-- **why `KeyOK` is assumed**: a message naming identifier "b" under TWO keys (patterns "p" and "q") stores two runs
+with the same identifier; the local event 1 completes both — one local notification reports "b" completed twice.
+(Unchecked runner; the checked one rejects the message.) -/
+example :
+    (mixedExec mxCfg mxG mxFr false false {} [] [.rem [] [] [mxRec "b" "p" 1, mxRec "b" "q" 1], .loc 1]).map
+      (fun r => r.2.map mxView) = some [([], [], ["b", "b"], false), (["b", "b"], [], [], true)] ∧
+    mixedExec mxCfg mxG mxFr false true {} [] [.rem [] [] [mxRec "b" "p" 1, mxRec "b" "q" 1], .loc 1] = none := by
+  decide
+
+/-- **why freshness of the local identifiers is assumed**: a message naming as completed the identifier "a" the
+local generator has yet to issue is reported; the local run that later gets "a" is reported completed again. -/
+example :
+    (mixedExec mxCfg mxG mxFr false false {} [] [.rem [mxRec "a" "p" 2] [] [], .loc 0, .loc 1]).map
+      (fun r => r.2.map mxView) = some [(["a"], [], [], false), ([], [], ["a"], true), (["a"], [], [], true)] ∧
+    mixedExec mxCfg mxG mxFr false true {} [] [.rem [mxRec "a" "p" 2] [] [], .loc 0, .loc 1] = none := by
+  decide
+
+end mixed_example
 end Bobo.Decider
